@@ -42,9 +42,14 @@ const (
 
 // Decision: after Gap further preemptible yield points, do To.
 // To >= 0: task To is boosted to highest priority (switch to it if alive).
+//
+// Hot: the gap counts only yield points at "hot" sites (right after an atomic
+// operation or around a lock operation) - the places where the windows of
+// lock-free and fine-grained-locking code open.
 type Decision struct {
 	Gap int32 `json:"g"`
 	To  int32 `json:"t"`
+	Hot bool  `json:"h,omitempty"`
 }
 
 // SwitchEv is one recorded task switch.
@@ -88,6 +93,8 @@ var (
 
 	siteHits    []uint32
 	sitePreempt []uint32
+	hotSites    []bool
+	pendingHot  bool
 
 	freeCounter uint32
 
@@ -110,6 +117,24 @@ func mix(h uint64, v uint64) uint64 {
 func SetSites(n int) {
 	siteHits = make([]uint32, n)
 	sitePreempt = make([]uint32, n)
+}
+
+// SetHotSites marks the yield sites that follow an atomic or lock operation.
+//
+//go:norace
+func SetHotSites(ids []int) {
+	n := len(siteHits)
+	for _, id := range ids {
+		if id+1 > n {
+			n = id + 1
+		}
+	}
+	hotSites = make([]bool, n)
+	for _, id := range ids {
+		if id >= 0 {
+			hotSites[id] = true
+		}
+	}
 }
 
 // SiteCounters returns copies of the per-site hit / preempted-at counters.
@@ -169,8 +194,10 @@ func Configure(n int, initialOrder []int32, dec []Decision, stepBudget int64) {
 	di = 0
 	if len(dec) > 0 {
 		gap = int64(dec[0].Gap)
+		pendingHot = dec[0].Hot
 	} else {
 		gap = 1 << 62
+		pendingHot = false
 	}
 	nswitch = 0
 	ngc = 0
@@ -321,6 +348,9 @@ func Yield(site int) {
 	if me < 0 || crit[me] > 0 {
 		return
 	}
+	if pendingHot && !(site < len(hotSites) && hotSites[site]) {
+		return
+	}
 	gap--
 	if gap > 0 {
 		return
@@ -334,8 +364,10 @@ func Yield(site int) {
 			g = 1
 		}
 		gap = g
+		pendingHot = decisions[di].Hot
 	} else {
 		gap = 1 << 62
+		pendingHot = false
 	}
 	if d.To == ToGC {
 		ngc++
